@@ -62,7 +62,7 @@ func (g *gen) freshKey() []byte {
 func (g *gen) key() []byte {
 	var k []byte
 	switch {
-	case len(g.pool) > 0 && g.r.Chance(5, 10):
+	case len(g.pool) > 0 && g.r.Chance(6, 10):
 		k = bytes.Clone(g.pool[g.r.Intn(len(g.pool))])
 	case len(g.pool) > 0 && g.r.Chance(2, 5):
 		// neighbour: extension or proper prefix of a used key
@@ -130,9 +130,9 @@ func (g *gen) rng(allowEmptyPrefix bool) seekRange {
 		sr.pfx = nil
 	}
 	// start: empty, or the remainder of some key with this prefix (cut short / extended), or letters
-	switch g.r.Intn(5) {
-	case 0, 1:
-	case 2, 3:
+	switch g.r.Intn(7) {
+	case 0, 1, 2:
+	case 3, 4, 5:
 		var cands [][]byte
 		for _, k := range g.pool {
 			if bytes.HasPrefix(k, sr.pfx) && len(k) > len(sr.pfx) {
